@@ -1,0 +1,30 @@
+//go:build verif
+
+package fasthttp
+
+// C03, response framing on the writing side. Checked by /verif/gocv (comment-only; compiled to nothing).
+
+// No-body statuses: exactly 1xx, 204 and 304 (RFC 9110 6.4.1).
+//@ func ResponseHeader.mustSkipContentLength results r
+//@   property C03
+//@   mode skeleton
+//@   ghost code int = 0
+//@   on call ResponseHeader.StatusCode -> c:
+//@     nohavoc
+//@     effect code = c
+//@   end
+//@   ensures[exactly-no-body-statuses] r == ((100 <= code && code < 200) || code == 204 || code == 304)
+
+// writeBodyFixedSize: a body stream declared with `size` bytes never puts more than `size` bytes on the wire, and a
+// stream of a different length is reported as an error (the caller then closes the connection).
+//@ func writeBodyFixedSize results err
+//@   property C03 C34
+//@   mode skeleton
+//@   ghost wrote int = 0
+//@   on call copyBodyStream(ww, rr) -> n, e:
+//@     nohavoc
+//@     effect wrote = n
+//@     ensures n >= 0
+//@   end
+//@   ensures[mismatch-is-an-error] wrote != size ==> err != nil
+//@   ensures[at-most-declared] wrote <= size
